@@ -17,6 +17,9 @@ Decides the plumbing clauses:
                    covered_line_ids is written by track_line_visit (and merge) only.
 Not decided: that "first instruction of a line within a basic block" visits exactly the lines the
 interpreter's LINE events report for arbitrary control flow (a fact about CPython's line table).
+Further clauses (added later): C02.isolation interprets init_trace / analyze_results over ExecutionTrace
+objects: every execution gets a private copy of the import trace, stored traces of results are never used as
+accumulator.
 """
 
 from __future__ import annotations
